@@ -235,10 +235,52 @@ def gen_scenario(rng, lay: dict, kind: str):
             'partial': partial, 'raise_every': raise_every}
 
 
+def violates(sc: dict, obs: dict) -> bool:
+    expected = [e for e in (isolated_decode(sc['kind'], p) for p in sc['plains']) if e is not None]
+    got = obs['objs']
+    if len(got) != len(expected) or any(type(a) is not type(b) or a != b for a, b in zip(got, expected)):
+        return True
+    if obs['unhandled']:
+        return True
+    if sc['ending'] == 'open':
+        return not obs['reader_alive'] or obs['closed'] or obs['writer_closed']
+    return obs['reader_alive'] or not obs['closed'] or not obs['writer_closed']
+
+
+def shrink_scenario(sc: dict, lay: dict) -> dict:
+    """Smallest sub-list of frames (delivered in one chunk, fixed key) on which the property still fails."""
+    from vlib.common import shrink_list
+
+    def build(pairs):
+        plains = [p for _, p in pairs]
+        wire = [ref_obf_encode(b'\x11\x22\x33\x44', p) if sc['obf'] else p for p in plains]
+        return dict(sc, plains=plains, labels=[l for l, _ in pairs], chunks=[b''.join(wire)] if wire else [])
+
+    def fails(pairs):
+        cand = build(pairs)
+        try:
+            return violates(cand, run_real(cand['kind'], cand['obf'], cand['chunks'], cand['ending'], cand['partial'], cand['raise_every'], lay))
+        except Exception:
+            return False
+    pairs = list(zip(sc['labels'], sc['plains']))
+    try:
+        if not fails(pairs):
+            return sc
+        return build(shrink_list(pairs, fails, max_steps=60))
+    except Exception:
+        return sc
+
+
 def monitor(run: Run, sc: dict, obs: dict, lay: dict):
     """Property text on one real run."""
     expected = [isolated_decode(sc['kind'], p) for p in sc['plains']]
     expected = [e for e in expected if e is not None]
+    if violates(sc, obs) and not any(f.key.endswith(':' + sc['kind']) for f in run.findings):
+        small = shrink_scenario(sc, lay)
+        if small is not sc:
+            sc = small
+            obs = run_real(sc['kind'], sc['obf'], sc['chunks'], sc['ending'], sc['partial'], sc['raise_every'], lay)
+            expected = [e for e in (isolated_decode(sc['kind'], p) for p in sc['plains']) if e is not None]
     wit = scenario_witness(sc)
     got = obs['objs']
     if len(got) != len(expected) or any(type(a) is not type(b) or a != b for a, b in zip(got, expected)):
